@@ -631,6 +631,80 @@ def r11_eoi_contained(c, facts, rule='C11.R11'):
         c.ok(R, {'parse': 'reports lexer errors, its own error on a valid cursor, or the error of parse_program', 'pushes': n})
 
 
+def r16_tokens_stored(c, facts, rule='C11.R16'):
+    """every token the lexer produces - trivia included - is stored with its own range and text: the token list appends
+    on every call, it never folds a token into its neighbour"""
+    R = c.rule(rule, 'TOKENS-STORED: TokenList::push appends every token it is given, unconditionally')
+    fn = facts.normalised(c.anchor(R, 'oal_model::lexicon::TokenList::push'))
+    app = {b for b, t in fn.calls() if P.strip((callee_of(t) or {}).get('def', '')).split('::')[-1] in ('push_back', 'push', 'push_front', 'insert')}
+    if not app:
+        c.bad(R, 'TokenList::push:no-append', 'TokenList::push no longer appends to the token arena')
+        return
+    reach = fn.reachable_from(0, avoid=app)
+    if any(fn.mir['blocks'][b]['term']['t'] == 'return' for b in reach):
+        c.bad(R, 'TokenList::push:token-not-stored-on-some-path', 'TokenList::push can return without having appended the token: its range is folded into a neighbour (or lost) and the stored text of that neighbour is no longer the source slice of its span')
+    else:
+        c.ok(R, {'TokenList::push': 'appends on every path'})
+
+
+def r15_attach_order(c, facts, rule='C11.R15'):
+    """the children of a node stand in source order: a production attaches the results of its sub-parses in the order in
+    which those sub-parses consumed the input - a child attached after one that was parsed later (`[name, rhs, mark]` for
+    `'id! int`) puts the leaves out of order and ends the node's span before its last token"""
+    R = c.rule(rule, 'ATTACH-ORDER: a production attaches its children in the order their sub-parses consumed the input')
+    n = 0
+    for fn in sorted(facts.fns.values(), key=lambda f: f.qname):
+        if not fn.mir or not fn.qname.startswith('oal_syntax::parser::parse_') or '{closure' in fn.qname:
+            continue
+        idx = MF.defs_index(fn)
+
+        def producers(op):
+            if 'l' not in op:
+                return set()
+            sl = MF.slice_back(fn, op['l'], idx, through_calls=False)
+            return {bi for _, t, bi in sl['calls'] if 'Cursor' in t['dest'].get('ty', '')}
+        events = []      # (kind, block, position, producing call blocks)
+        for b, blk in fn.blocks():
+            for st in blk['stmts']:
+                rv = st['rv'] if st['s'] == 'assign' else None
+                if rv and rv['r'] == 'aggr' and rv.get('ak') == 'array' and len(rv['ops']) > 1 and any('ParserMatch' in o.get('ty', '') for o in rv['ops']):
+                    for i, o in enumerate(rv['ops']):
+                        events.append(('array', b, i, producers(o)))
+        for b, t in fn.calls():
+            nm = P.strip((callee_of(t) or {}).get('def', '')).split('::')[-1]
+            if nm in ('push', 'extend', 'extend_one') and t['args'] and 'ParserMatch' in t['args'][0].get('ty', '') and len(t['args']) > 1:
+                events.append(('push', b, 0, producers(t['args'][1])))
+        events = [e for e in events if e[3]]
+        if len(events) < 2:
+            continue
+        n += 1
+        inv = None
+        for i, a in enumerate(events):
+            for bb in events:
+                if a is bb:
+                    continue
+                # a is attached before bb?
+                if a[0] == 'array' and bb[0] == 'array' and a[1] == bb[1]:
+                    before = a[2] < bb[2]
+                elif a[0] == 'array' and bb[0] == 'push':
+                    before = fn.dominates(a[1], bb[1])
+                elif a[0] == 'push' and bb[0] == 'push':
+                    before = a[1] != bb[1] and fn.dominates(a[1], bb[1])
+                else:
+                    before = False
+                if not before:
+                    continue
+                # ... but every sub-parse of bb ran before every sub-parse of a
+                if all(x != y and fn.dominates(y, x) for x in a[3] for y in bb[3]):
+                    inv = (sorted(fn.mir['blocks'][x]['term']['ln'] for x in a[3]), sorted(fn.mir['blocks'][y]['term']['ln'] for y in bb[3]))
+        inst = {'production': fn.qname.split('::')[-1], 'attach events': len(events)}
+        if inv:
+            c.bad(R, '%s:children-out-of-source-order' % fn.qname.split('::')[-1], '%s attaches the node parsed at line %s before the node parsed at line %s, which was parsed first: the leaves of the node are out of source order and its span ends before its last token' % (fn.qname, inv[0], inv[1]), **inst)
+        else:
+            c.ok(R, inst)
+    c.floor(R, 'productions with two or more attached sub-parses', n, 15)
+
+
 def r14_report_units(c, facts, rule='C11.R14'):
     """ariadne indexes a source by character: the spans the CLI and the playground hand to it are character spans
     (CharSpan::from converts the compiler's byte spans) - a byte offset shifts the label after the first non-ASCII
@@ -655,6 +729,8 @@ def r14_report_units(c, facts, rule='C11.R14'):
 
 
 def run(c, facts):
+    c.run(r16_tokens_stored, facts)
+    c.run(r15_attach_order, facts)
     c.run(r14_report_units, facts)
     import lexrules
     c.run(lambda c: lexrules.no_skip(c, facts, 'C11.R12'))
